@@ -155,6 +155,14 @@ func (e *C17) batch(ctx *core.Ctx, idx int) {
 			s.Inject(p)
 			podByNode[ni] = p
 			pods = append(pods, p)
+			if op == "deletePodSlice" && i%3 == 0 {
+				// the clean-up list is the one place where several pods of one node are deleted in parallel: a
+				// second pod on the same node whose deletion always succeeds, next to one that may fail
+				p2 := p.DeepCopy()
+				p2.Name = "pod2-" + name
+				s.Inject(p2)
+				pods = append(pods, p2)
+			}
 		}
 	}
 	var mu sync.Mutex
@@ -167,7 +175,7 @@ func (e *C17) batch(ctx *core.Ctx, idx int) {
 		if call.Submitted != nil {
 			node = kit.NodeOfPod(call.Submitted.(*corev1.Pod))
 		}
-		if failNode[node] {
+		if failNode[node] && !(call.Verb == "delete" && strings.HasPrefix(call.Name, "pod2-")) {
 			mu.Lock()
 			injected[fmt.Sprintf("f-%d", call.Seq)] = true
 			mu.Unlock()
@@ -354,6 +362,10 @@ func (e *C17) syncLevel(ctx *core.Ctx) {
 		case "cleanup":
 			s.Inject(mk("cur-"+name, "B", rsB.Spec.TemplateGeneration))
 			s.Inject(mk("dup-"+name, "B", rsB.Spec.TemplateGeneration))
+			if i%2 == 0 {
+				// a third pod: two clean-up deletions on the same node in one sync
+				s.Inject(mk("dup2-"+name, "B", rsB.Spec.TemplateGeneration))
+			}
 		}
 	}
 	failProb := []float64{0.3, 1}[r.Intn(2)]
